@@ -102,7 +102,8 @@ def device_check(pid, tier, replay, prefixes, jobs, drivers=(), rule="", assumpt
 
 
 DEFAULT_CONSTS = {"Variant": "keys", "Mode": "interrupt", "OctB": 1, "SemiB": 0, "ChanB": 1, "TapActions": True,
-                  "ExitLen": 0, "NBase": 4, "AxSet": set()}
+                  "ExitLen": 0, "NBase": 4, "AxSet": set(),
+                  "HoldSet": {"KEY_ESC"} | {"KEY_F%d" % i for i in range(1, 13)}}
 
 
 def J(name, **kw):
@@ -112,6 +113,9 @@ def J(name, **kw):
     j = {"name": "%s %s" % (name, " ".join("%s=%s" % (k, v) for k, v in kw.items())), "module": "MC_device", "consts": c}
     j.update(extra)
     return j
+
+
+HOLD_SETS = [("KEY_F1", "KEY_F2"), ("KEY_F11", "KEY_F12"), ("KEY_ESC", "KEY_F9"), ("KEY_ESC", "KEY_F10"), ("KEY_F5", "KEY_F6")]
 
 
 def keys_jobs(tier, modes=MODES):
@@ -125,7 +129,10 @@ def keys_jobs(tier, modes=MODES):
         else:
             jobs.append(J("keys", Variant="keys", Mode=m, OctB=1, ChanB=1, split=4))
             jobs.append(J("keys", Variant="keys", Mode=m, OctB=1, SemiB=1, ChanB=0, split=4))
-            jobs.append(J("keys-held-actions", Variant="keys", Mode=m, OctB=1, ChanB=0, TapActions=False, split=4))
+            # action keys held: two at a time may be held, the others are tapped (all of them held at once is
+            # beyond 4 M states); the pairs are the up/down pairs and panic with each latch
+            for hs in (HOLD_SETS if m == "interrupt" else HOLD_SETS[:2]):
+                jobs.append(J("keys-held-actions", Variant="keys", Mode=m, OctB=1, ChanB=0, TapActions=False, HoldSet=set(hs), split=2))
     return jobs
 
 
@@ -174,8 +181,12 @@ def c04(pid, tier, replay):
 
 
 def c13(pid, tier, replay):
-    return device_check(pid, tier, replay, ["C13_"], keys_jobs(tier),
-                        drivers=[devdrivers.random_keys], assumptions=ASSUME_DEV)
+    # panic through an axis that emulates actions: held cc-learning key, tapped mapping key
+    aact = [J("aact", Variant="aact", AxSet={"ABS_Z"}, OctB=1, ChanB=0, TapActions=False, HoldSet={"KEY_F9"}),
+            J("aact", Variant="aact", AxSet={"ABS_HAT0X"}, OctB=1, ChanB=0, TapActions=False, HoldSet={"KEY_F9"})]
+    return device_check(pid, tier, replay, ["C13_"], keys_jobs(tier) + aact,
+                        drivers=[devdrivers.random_keys, devdrivers.panic_axis_batches, devdrivers.action_axis_batches],
+                        assumptions=ASSUME_DEV)
 
 
 def c14(pid, tier, replay):
@@ -688,10 +699,17 @@ def watcher_scenarios(seed, tier):
          {"op": "resume"}])
     add([T(dirs[3] + "a.toml")])                                       # a modification that leaves the file empty
     add([W(dirs[0] + "b.toml"), T(dirs[2] + "c.toml"), W(dirs[2] + "notes.txt"), T(dirs[0] + "notes.txt"), W(dirs[2] + "c.toml")])
+    P = lambda f: {"op": "pwrite", "file": f}
+    add([P(dirs[1] + "a.toml")] * 4)                                  # one file edited again and again, each edit noticed before the next
+    add([P(dirs[0] + "UPPER.TOML"), {"op": "sleep"}, P(dirs[0] + "UPPER.TOML"), W(dirs[0] + "notes.txt"), P(dirs[0] + "UPPER.TOML")])
+    add([P(dirs[2] + "b.toml"), P(dirs[3] + "b.toml"), P(dirs[2] + "b.toml"), P(dirs[2] + "b.toml"), T(dirs[2] + "b.toml")])
     n = 25 if tier == "quick" else 400
     for _ in range(n):
         ops = []
         paused = False
+        if rng.random() < 0.3:                                          # a paced prefix: the same few files, each edit noticed
+            fs = [rng.choice(dirs) + rng.choice(toml) for _ in range(2)]
+            ops += [P(rng.choice(fs)) for _ in range(rng.randrange(2, 7))]
         for _ in range(rng.randrange(1, 25)):
             r = rng.random()
             if r < 0.08:
@@ -872,6 +890,24 @@ def c17(pid, tier, replay):
             for _ in range(n):
                 w += [{"ev": "press", "k": k}, {"ev": "release", "k": k}]
         far.append(w + [{"ev": "disconnect"}])
+        # one pitch sounding several times over: on MIDI input on the current channel and on channels below and
+        # above it, and from the keyboard - the precedence active > external (current channel) > a channel's colour
+        import random as _r
+        rng = _r.Random(vlib.seed() * 41 + 7)
+        for cur in (0, 1, 7, 15):
+            w = []
+            for _ in range(cur):
+                w += [{"ev": "press", "k": "KEY_F6"}, {"ev": "release", "k": "KEY_F6"}]
+            chans = sorted({0, cur, 15, (cur + 15) % 16, (cur + 1) % 16})
+            rng.shuffle(chans)
+            for ch in chans:
+                w.append({"ev": "midiin", "msg": [0x90 + ch, 60, 70]})
+            w += [{"ev": "press", "k": "KEY_A"}, {"ev": "midiin", "msg": [0x90 + cur, 62, 1]}, {"ev": "press", "k": "KEY_D"},
+                  {"ev": "release", "k": "KEY_A"}, {"ev": "release", "k": "KEY_D"}]
+            rng.shuffle(chans)
+            for ch in chans:
+                w.append({"ev": "midiin", "msg": [0x80 + ch, 60, 0] if ch % 2 else [0x90 + ch, 60, 0]})
+            far.append(w + [{"ev": "disconnect"}])
         groups.append([{"cfg": d["cfg"], "colors": LED_COLORS, "layout": LED_LAYOUTS[0], "walks": far}])
     def one(g):
         t, _ = run_led(scr, g)
@@ -922,10 +958,27 @@ def lifecycle_batches(seed, tier):
     cfg["exit"] = []
     notes = ["KEY_Z", "KEY_X", "KEY_C", "KEY_V", "KEY_Q", "KEY_W"]
     layout = ["KEY_ESC", "KEY_F1", "KEY_F2", "KEY_Z", "KEY_X", "KEY_C", "KEY_V", "KEY_Q", "KEY_W", "KEY_F5", "KEY_F6", "other:Logo"]
-    def walk(n, held_at_end, midi=True, sleep_before_disc=0):
+    def walk(n, held_at_end, midi=True, sleep_before_disc=0, dense=False):
         w, held = [], []
         for _ in range(n):
             r = rng.random()
+            if dense:
+                # every pair of accesses the Lifecycle model has: panic (resets the MIDI-input tracker) against MIDI
+                # input and against the LED cycle, key handling against the LED cycle - none of them paced by frames
+                if r < 0.45:
+                    w.append({"ev": "midiin", "msg": [rng.choice([0x90, 0x80]) + rng.randrange(16), rng.choice([36, 38, 40, 60]), rng.choice([0, 100])]})
+                elif r < 0.7:
+                    w += [{"ev": "press", "k": "KEY_ESC"}, {"ev": "release", "k": "KEY_ESC"}]
+                elif r < 0.8:
+                    k = rng.choice(["KEY_F1", "KEY_F2", "KEY_F5", "KEY_F6"])
+                    w += [{"ev": "press", "k": k}, {"ev": "release", "k": k}]
+                elif held and r < 0.9:
+                    w.append({"ev": "release", "k": held.pop(rng.randrange(len(held)))})
+                elif len(held) < 4:
+                    k = rng.choice([x for x in notes if x not in held])
+                    held.append(k)
+                    w.append({"ev": "press", "k": k})
+                continue
             if r < 0.35 and len(held) < 4:
                 k = rng.choice([x for x in notes if x not in held])
                 held.append(k)
@@ -953,7 +1006,10 @@ def lifecycle_batches(seed, tier):
     nowait = [{"cfg": cfg, "colors": LED_COLORS, "layout": layout, "nowait": True,
                "walks": [walk(rng.randrange(0, 10), rng.choice([0, 2]), sleep_before_disc=rng.choice([0, 0, 3, 8, 260, 520, 600]))
                          for _ in range(n * 2)]} for _ in range(3)]
-    return [[b] for b in waited + nowait]
+    stress = [{"cfg": cfg, "colors": LED_COLORS, "layout": layout, "nowait": True, "async_midi": True,
+               "walks": [walk(rng.randrange(30, 80), rng.choice([0, 2]), sleep_before_disc=rng.choice([0, 3, 300]), dense=True)
+                         for _ in range(n)]} for _ in range(2)]
+    return [[b] for b in waited + nowait + stress]
 
 
 def c16(pid, tier, replay):
